@@ -64,6 +64,8 @@ def render_feature(case):
         emit("  Background:")
         for st in c["background"]:
             emit_step(st, "    ")
+    if c.get("in_rule"):
+        emit("  Rule: R")          # the outline lives in a Rule that inherits the feature's Background
     if c["tags"]:
         emit("  " + " ".join("@" + t for t in c["tags"]))
     emit("  Scenario Outline: " + c["name"])
@@ -104,7 +106,8 @@ def impl_outline(case):
     from behave.model import ScenarioOutline
     text, filled = render_feature(case)
     feature = parse_feature(text, filename="f.feature")
-    outline = [s for s in feature.run_items if isinstance(s, ScenarioOutline)][0]
+    holders = [feature] + list(getattr(feature, "rules", []))
+    outline = [s for h in holders for s in h.run_items if isinstance(s, ScenarioOutline)][0]
     if case["schema"] is not None:
         outline.annotation_schema = case["schema"]
     template_before = [describe_step(s) for s in outline.steps]
@@ -416,6 +419,7 @@ def gen_case(rnd, allow_chained=False):
             "steps": first_is_real([gen_step(rnd, cols, params=(params if rnd.random() < 0.2 else ())) for _ in range(rnd.randint(1, 4))]),
             "background": first_is_real([gen_step(rnd, cols if rnd.random() < 0.5 else []) for _ in range(rnd.randint(1, 2))] if rnd.random() < 0.3 else []),
             "examples": examples, "schema": rnd.choice(SCHEMAS[:5] + SCHEMAS[:2] + (SCHEMAS[5:] if rnd.random() < 0.3 else []))}
+    case["in_rule"] = bool(case["background"]) and rnd.random() < 0.5
     hist = [["access"]]
     withtab = [i for i, e in enumerate(examples) if e["table"] is not None]
     for _ in range(rnd.choice([0, 0, 1, 2, 4])):
